@@ -209,10 +209,12 @@ PREFIX = S.REQ_ALL
 # ---------------------------------------------------------------------------------------------
 # require structures: which capability strings load what, in every list shape
 
-REQ_NAMES = ['"fileinto"', '"copy"', '"imap4flags"', '"Fileinto"', '" fileinto"', '"copy\t"', '"nosuch"', '""', '"vacation-seconds"', '"vacation"']
+REQ_NAMES = ['"fileinto"', '"copy"', '"imap4flags"', '"Fileinto"', '" fileinto"', '"copy\t"', '"nosuch"', '""', '"vacation-seconds"', '"vacation"',
+             # capability strings that are not extension names: comparator-* (their names contain hyphens), names of extension-bound commands
+             '"comparator-i;ascii-casemap"', '"setflag"']
 REQ_USES = [("fileinto", "STR", ";"), ("fileinto", ":copy", "STR", ";"), ("keep", ":flags", "STR", ";"), ("keep", ";"),
             ("if", "hasflag", "STR", "{", "fileinto", "STR", ";", "}"), ("redirect", ":copy", "STR", ";"),
-            ("vacation", ":seconds", "NUM", "STR", ";"), ("vacation", "STR", ";")]
+            ("vacation", ":seconds", "NUM", "STR", ";"), ("vacation", "STR", ";"), ("setflag", "STR", ";")]
 
 
 def _req_cmds(maxnames):
